@@ -4,4 +4,14 @@
 EXTENDS Integers
 
 Min(a, b) == IF a < b THEN a ELSE b
+
+(* EXTREME LIMITS.  TLC integers are 32-bit, the Go limits are uint64 / uint:  *)
+(* a limit >= HugeBase is SYMBOLIC - "larger than every total that can be     *)
+(* reached" - and stands for one of math.MaxInt64-1, MaxInt64, MaxInt64+1,    *)
+(* MaxUint64-1, MaxUint64 (HugeBase + 0..4; the harness substitutes the real  *)
+(* constant).  Nothing in the specifications treats it specially: with such a *)
+(* limit the reader / writer must behave exactly like the unlimited           *)
+(* pass-through (every request min(len, remaining) = len, nothing dropped),   *)
+(* which is what the ordinary arithmetic yields.                              *)
+HugeBase == 1000000000
 =============================================================================
